@@ -6,7 +6,8 @@ Batches == << <<<<1, 2, 3>>, <<1, 2, 3>>, "tensor">>, <<<<3, 1>>, <<2>>, "tensor
               <<<<2, 3, 1>>, <<3>>, "points">>, <<<<1>>, <<2, 1>>, "callable">>, <<<<3>>, <<1, 3>>, "single_tensor">>,
               <<<<2>>, <<2, 3>>, "callable">>, <<<<2, 3>>, <<1, 2>>, "funcset">>, <<<<1, 3, 2>>, <<3>>, "funcset_sum">>, <<<<3>>, <<2, 1>>, "funcset">> >>
 Scen == {[dim |-> d, neurons |-> d * nn, th |-> th, bh |-> bh, tdim |-> td, m |-> 3, batches |-> Batches,
-          history |-> <<1, 0, 0, 2, 0, 3, 0>>] :
-            d \in 1..2, nn \in 1..3, th \in {<<2>>, <<3, 2>>}, bh \in {<<2>>, <<2, 3>>}, td \in 1..2}
+          history |-> <<1, 0, 0, 2, 0, 3, 0>>, bk |-> bk] :
+            d \in 1..2, nn \in 1..3, th \in {<<2>>, <<3, 2>>}, bh \in {<<2>>, <<2, 3>>}, td \in 1..2,
+            bk \in {"fc", "conv"}}          \* branch architecture: fully connected, or a 1-D convolution followed by FC layers
 ASSUME ndJsonSerialize(IOEnv.OUT_FILE, SetToSeq(Scen)) /\ PrintT(<<"SCENARIOS", Cardinality(Scen)>>)
 ==========================================================================
